@@ -419,3 +419,32 @@ func Fill(col any, rt *refproto.Type, vals []any) error {
 	}
 	return nil
 }
+
+// Overwrite replaces row i in place when the column's storage allows it
+// (slice-backed columns, i.e. the ones sent by reference); it reports false
+// when the column has no in-place form.
+func Overwrite(col any, rt *refproto.Type, i int, v any) (ok bool) {
+	defer func() {
+		if recover() != nil {
+			ok = false
+		}
+	}()
+	rv := reflect.ValueOf(col)
+	if rv.Kind() != reflect.Pointer || rv.Elem().Kind() != reflect.Slice {
+		return false
+	}
+	switch col.(type) {
+	case *proto.ColDate, *proto.ColDate32:
+		return false
+	}
+	sl := rv.Elem()
+	if i >= sl.Len() {
+		return false
+	}
+	e, err := toRV(sl.Type().Elem(), v)
+	if err != nil {
+		return false
+	}
+	sl.Index(i).Set(e)
+	return true
+}
